@@ -1,3 +1,323 @@
 package main
 
-func cmdCheck(repo, prop, tier string) int { return 2 }
+// `rosvc check --property Cxx --tier quick|thorough`: the command registered in MANIFEST.json.
+
+import (
+	"encoding/json"
+	"fmt"
+	"os"
+	"path/filepath"
+	"sort"
+	"strconv"
+	"strings"
+	"time"
+)
+
+const verifRoot = "/verif"
+
+type KnownFinding struct {
+	Property   string `json:"property"`
+	Obligation string `json:"obligation"`
+	Status     string `json:"status"` // open | fixed
+	Region     string `json:"region,omitempty"`
+	What       string `json:"what"`
+	Commit     string `json:"commit,omitempty"`
+	Demo       string `json:"demo,omitempty"`
+}
+
+type KnownFile struct {
+	Findings []KnownFinding `json:"findings"`
+}
+
+func loadKnown() (*KnownFile, error) {
+	data, err := os.ReadFile(filepath.Join(verifRoot, "known_findings.json"))
+	if err != nil {
+		if os.IsNotExist(err) {
+			return &KnownFile{}, nil
+		}
+		return nil, err
+	}
+	var kf KnownFile
+	if err := json.Unmarshal(data, &kf); err != nil {
+		return nil, err
+	}
+	return &kf, nil
+}
+
+// baseline: property -> obligation ids that discharge on the unchanged tree
+func loadBaseline() (map[string]map[string]bool, error) {
+	data, err := os.ReadFile(filepath.Join(verifRoot, "obligations.baseline"))
+	if err != nil {
+		if os.IsNotExist(err) {
+			return map[string]map[string]bool{}, nil
+		}
+		return nil, err
+	}
+	out := map[string]map[string]bool{}
+	for _, l := range strings.Split(string(data), "\n") {
+		f := strings.Fields(l)
+		if len(f) < 2 || strings.HasPrefix(f[0], "#") {
+			continue
+		}
+		if out[f[0]] == nil {
+			out[f[0]] = map[string]bool{}
+		}
+		out[f[0]][f[1]] = true
+	}
+	return out, nil
+}
+
+var assumptionsText = map[string]string{
+	"A-SSA":   "A-SSA: go/ssa (x/tools v0.29.0) represents the source faithfully; the SSA of every function under contract is rebuilt from /repo on every run (fingerprints in coverage.functions_under_contract)",
+	"A-SQL":   "A-SQL: the row-wise semantics given to the SQL text found in the code equals SQLite's on those statements",
+	"A-DRV":   "A-DRV: database/sql + mattn/go-sqlite3: nil []byte <=> NULL, integers round-trip, RowsAffected/LastInsertId meanings, Scan leaves destinations alone on error",
+	"A-TXN":   "A-TXN: a committed SQLite transaction is atomic, isolated and durable; a failed statement leaves the transaction's earlier effects in place until Rollback",
+	"A-BUSY":  "A-BUSY: statements issued under the bucket mutex do not fail with SQLITE_BUSY/LOCKED (the retry branch of inTransaction is proved unreachable under this)",
+	"A-JSON":  "A-JSON: json.Marshal/Unmarshal on map[string]RawMessage are mutually inverse up to JSON equality; encoding/json otherwise uninterpreted",
+	"A-MUTEX": "A-MUTEX: sync.Mutex / sync.Cond semantics",
+	"A-ALIAS": "A-ALIAS: distinct pointer inputs do not alias unless the contract models the sharing",
+	"A-INT":   "A-INT: machine integers are modelled as mathematical integers with explicit wrap-around for unsigned arithmetic; preconditions state the ranges (clock seconds < 2^32-30d, counters below 2^63)",
+	"A-LOG":   "A-LOG: logging/trace helpers do not touch modelled state",
+	"A-EXT":   "A-EXT: unmodelled external functions return arbitrary values and do not write rosmar's tables or fields",
+	"A-IND":   "A-IND: the induction over histories (every mutator preserves the invariant => it holds in every reachable state) is a meta-argument, not machine-checked",
+}
+
+func cmdCheck(repo, prop, tier string) int {
+	t0 := time.Now()
+	seed := int64(0)
+	if s := os.Getenv("VERIF_SEED"); s != "" {
+		seed, _ = strconv.ParseInt(s, 10, 64)
+	}
+	if t := os.Getenv("VERIF_TIER"); t != "" && tier == "" {
+		tier = t
+	}
+	if tier == "" {
+		tier = "quick"
+	}
+	broken := func(format string, a ...interface{}) int {
+		fmt.Printf("BROKEN property=%s %s\n", prop, fmt.Sprintf(format, a...))
+		return 2
+	}
+	e, err := loadEngine(repo)
+	if err != nil {
+		return broken("load: %v", err)
+	}
+	cs, err := loadContracts(filepath.Join(repo, "verif_contracts.go"))
+	if err != nil {
+		return broken("contracts: %v", err)
+	}
+	e.contracts = cs
+	if e.solver, err = newSolver(); err != nil {
+		return broken("solver: %v", err)
+	}
+	defer e.solver.cleanup()
+	known, err := loadKnown()
+	if err != nil {
+		return broken("known_findings.json: %v", err)
+	}
+	baseline, err := loadBaseline()
+	if err != nil {
+		return broken("obligations.baseline: %v", err)
+	}
+	e.known = known
+	e.prop = prop
+
+	var all []*Obligation
+	var fnInfo []map[string]interface{}
+	totalPaths := 0
+	unmodelled := map[string]int{}
+	for _, fnn := range cs.order {
+		ct := cs.fns[fnn]
+		has := false
+		for _, cl := range ct.allClauses() {
+			if hasProp(cl.Props, prop) {
+				has = true
+				break
+			}
+		}
+		if !has {
+			continue
+		}
+		r := e.verifyFunction(ct, prop, tier)
+		totalPaths += r.Paths
+		for k, v := range r.Unmodel {
+			unmodelled[k] += v
+		}
+		fnInfo = append(fnInfo, map[string]interface{}{"function": ct.Fn, "paths": r.Paths, "exits": r.ByKind,
+			"code_fingerprint": r.Finger, "seconds": round2(r.Seconds)})
+		for _, o := range r.Obls {
+			// structural obligations belong to every property of the function; contract clauses to their tags
+			if len(o.Props) == 0 || hasProp(o.Props, prop) {
+				all = append(all, o)
+			}
+		}
+		for _, n := range r.Notes {
+			fmt.Printf("NOTE %s: %s\n", ct.Short, n)
+		}
+	}
+	if len(all) == 0 {
+		return broken("no obligations generated (vacuous check)")
+	}
+	// verdicts
+	exit := 0
+	violations := 0
+	discharged := 0
+	bySolver := map[string]int{}
+	maxSec, totSec := 0.0, 0.0
+	var samples []map[string]interface{}
+	var knownLines []string
+	seen := map[string]bool{}
+	os.MkdirAll(filepath.Join(verifRoot, "replays", prop), 0755)
+	for _, o := range all {
+		seen[o.ID] = true
+		totSec += o.Seconds
+		if o.Seconds > maxSec {
+			maxSec = o.Seconds
+		}
+		switch o.Status {
+		case "discharged":
+			discharged++
+			s := o.Solver
+			if s == "" {
+				s = "folded"
+			}
+			bySolver[s]++
+		case "broken":
+			fmt.Printf("BROKEN property=%s obligation=%s %s\n", prop, o.ID, o.Detail)
+			if exit < 2 {
+				exit = 2
+			}
+		default:
+			// known finding?
+			if kf := known.match(prop, o.ID); kf != nil && kf.Status == "open" {
+				if o.OutsideRegion == "discharged" || kf.Region == "" {
+					knownLines = append(knownLines, fmt.Sprintf("KNOWN-FINDING: property=%s %s %s", prop, o.ID, kf.What))
+					discharged++
+					bySolver["known-finding(outside region proved)"]++
+					continue
+				}
+			}
+			violations++
+			path := e.writeReplay(prop, o, tier)
+			suffix := ""
+			if !o.Replayed {
+				suffix = " no-failing-input-found"
+			}
+			fmt.Printf("VIOLATION property=%s replay=%s%s\n", prop, path, suffix)
+			fmt.Printf("  obligation %s (%s) %s: %s\n", o.ID, o.Status, o.Pos, truncate(o.Clause, 160))
+			if exit < 1 {
+				exit = 1
+			}
+		}
+		if len(samples) < 12 {
+			samples = append(samples, map[string]interface{}{"obligation": o.ID, "function": o.Fn, "kind": o.Kind,
+				"clause": o.Clause, "contract_pos": o.Pos, "path_vcs": o.Paths, "folded_true": o.Trivial,
+				"status": o.Status, "solver": o.Solver, "seconds": round2(o.Seconds)})
+		}
+	}
+	for _, l := range knownLines {
+		fmt.Println(l)
+	}
+	// vacuity floor: every baseline obligation must have been generated
+	var missing []string
+	for id := range baseline[prop] {
+		if !seen[id] {
+			missing = append(missing, id)
+		}
+	}
+	sort.Strings(missing)
+	for _, id := range missing {
+		violations++
+		o := &Obligation{ID: id, Status: "undischarged", Kind: "missing", Clause: "obligation of the committed baseline was not generated on this tree",
+			Detail: "the function or clause that carried it no longer resolves"}
+		path := e.writeReplay(prop, o, tier)
+		fmt.Printf("VIOLATION property=%s replay=%s no-failing-input-found\n", prop, path)
+		fmt.Printf("  obligation %s is listed in obligations.baseline but was not generated\n", id)
+		if exit < 1 {
+			exit = 1
+		}
+	}
+	// evidence
+	var assumptions []string
+	for _, k := range []string{"A-SSA", "A-SQL", "A-DRV", "A-TXN", "A-BUSY", "A-JSON", "A-MUTEX", "A-ALIAS", "A-INT", "A-LOG", "A-EXT", "A-IND"} {
+		assumptions = append(assumptions, assumptionsText[k])
+	}
+	if nr, ok := notReached[prop]; ok {
+		assumptions = append([]string{"NOT REACHED by this check: " + nr}, assumptions...)
+	}
+	var um []string
+	for k, v := range unmodelled {
+		um = append(um, fmt.Sprintf("%s x%d", k, v))
+	}
+	sort.Strings(um)
+	var kfs []string
+	for _, kf := range known.Findings {
+		if kf.Property == prop {
+			kfs = append(kfs, fmt.Sprintf("%s: %s %s %s", kf.Status, kf.Obligation, kf.Commit, kf.What))
+		}
+	}
+	ev := map[string]interface{}{
+		"property_id": prop, "tier": tier, "seed": seed, "level": "proof",
+		"coverage": map[string]interface{}{
+			"obligations": len(all) + len(missing), "discharged": discharged,
+			"checker_cmd": fmt.Sprintf("/verif/bin/rosvc check --property %s --tier %s", prop, tier),
+			"trusted_base": []string{"rosvc VC generator (/verif/engine)", "go/ssa x/tools v0.29.0", "z3 5.1.0 (z3-new), cvc5 1.0.3, z3 4.8.12",
+				"SQL-subset semantics (A-SQL)", "models of database/sql, sync, time, encoding/json, container/list (extern.go)"},
+			"functions_under_contract": fnInfo,
+			"path_vcs":                 totalPaths,
+			"by_solver":                bySolver,
+			"solver_time_s":            map[string]interface{}{"total": round2(totSec), "max_obligation": round2(maxSec)},
+			"samples":                  samples,
+			"known_findings":           kfs,
+			"havocked_externals":       um,
+			"sql_statements_interpreted": len(e.sqlTexts),
+			"explanation":              "one obligation per (function under contract, contract clause); each is discharged when the solver answers unsat for the negated clause on every path of the function's SSA",
+		},
+		"assumptions": assumptions,
+		"wall_s":      round2(time.Since(t0).Seconds()),
+		"violations":  violations,
+	}
+	os.MkdirAll(filepath.Join(verifRoot, "evidence"), 0755)
+	data, _ := json.MarshalIndent(ev, "", " ")
+	if err := os.WriteFile(filepath.Join(verifRoot, "evidence", prop+".json"), data, 0644); err != nil {
+		return broken("evidence: %v", err)
+	}
+	fmt.Printf("property=%s tier=%s obligations=%d discharged=%d violations=%d paths=%d wall=%.1fs\n",
+		prop, tier, len(all)+len(missing), discharged, violations, totalPaths, time.Since(t0).Seconds())
+	return exit
+}
+
+func round2(f float64) float64 { return float64(int(f*100+0.5)) / 100 }
+
+func (kf *KnownFile) match(prop, obl string) *KnownFinding {
+	for i := range kf.Findings {
+		f := &kf.Findings[i]
+		if f.Property == prop && f.Obligation == obl {
+			return f
+		}
+	}
+	return nil
+}
+
+// writeReplay stores everything known about a failed obligation.
+func (e *Engine) writeReplay(prop string, o *Obligation, tier string) string {
+	dir := filepath.Join(verifRoot, "replays", prop)
+	os.MkdirAll(dir, 0755)
+	base := filepath.Join(dir, sanitize(o.ID))
+	smtPath := ""
+	if o.FailSMT != "" {
+		smtPath = base + ".smt2"
+		os.WriteFile(smtPath, []byte(o.FailSMT), 0644)
+	}
+	rec := map[string]interface{}{
+		"property": prop, "obligation": o.ID, "function": o.Fn, "kind": o.Kind, "clause": o.Clause, "contract_pos": o.Pos,
+		"status": o.Status, "solver_output": o.Detail, "model": o.Model, "path": o.FailPath, "smt2": smtPath,
+		"variant": o.Variant, "replayed_on_real_code": o.Replayed, "replay_observation": o.ReplayObs,
+	}
+	data, _ := json.MarshalIndent(rec, "", " ")
+	path := base + ".json"
+	os.WriteFile(path, data, 0644)
+	return path
+}
+
+var notReached = map[string]string{}
